@@ -57,8 +57,39 @@ pub enum Op {
     DropWorld { w: usize },
     Query { w: usize, q: usize, path: String, h: HRef, n: usize },
     Cont(crate::containers::COp),
+    /// `ChangeTracker<TK>::track` with the given reads: (kind 0 added / 1 changed / 2 removed, partial)
+    Track { w: usize, reads: Vec<(u8, bool)> },
+    /// `obs` without the archetype list (hidden snapshot components make it unobservable)
+    TObs { w: usize },
 }
 
+fn show_reads(reads: &[(u8, bool)]) -> String {
+    let v: Vec<String> = reads
+        .iter()
+        .map(|(k, p)| format!("{}{}", ["added", "changed", "removed"][*k as usize], if *p { "~" } else { "" }))
+        .collect();
+    format!("[{}]", v.join(","))
+}
+fn parse_reads(s: &str) -> Vec<(u8, bool)> {
+    let inner = &s[1..s.len() - 1];
+    if inner.is_empty() {
+        return vec![];
+    }
+    inner
+        .split(',')
+        .map(|r| {
+            let part = r.ends_with('~');
+            let name = r.trim_end_matches('~');
+            let k = match name {
+                "added" => 0,
+                "changed" => 1,
+                "removed" => 2,
+                _ => panic!("harness: bad read {}", r),
+            };
+            (k, part)
+        })
+        .collect()
+}
 fn kstr(k: &Option<usize>) -> String {
     match k {
         Some(k) => k.to_string(),
@@ -113,6 +144,8 @@ impl Op {
             Op::DropWorld { w } => format!("drop W{}", w),
             Op::Query { w, q, path, h, n } => format!("query W{} k={} path={} h={} n={}", w, q, path, h.show(), n),
             Op::Cont(c) => c.show(),
+            Op::Track { w, reads } => format!("track W{} reads={}", w, show_reads(reads)),
+            Op::TObs { w } => format!("tobs W{}", w),
         }
     }
 
@@ -164,6 +197,8 @@ impl Op {
             "reserve_entities" => Op::ReserveEntities { w, n: f("n").parse().unwrap() },
             "obs" => Op::Obs { w },
             "drop" => Op::DropWorld { w },
+            "track" => Op::Track { w, reads: parse_reads(f("reads")) },
+            "tobs" => Op::TObs { w },
             "query" => Op::Query {
                 w,
                 q: f("k").parse().unwrap(),
@@ -187,6 +222,8 @@ pub struct Ctx {
     /// one `PreparedQuery` per menu entry, shared by all worlds of the history (C17)
     prepared: HashMap<usize, Box<dyn std::any::Any>>,
     pub containers: crate::containers::Containers,
+    /// one tracker per world (C18)
+    trackers: HashMap<usize, hecs::ChangeTracker<TK>>,
     /// annotation lines produced by the last op (hooked container state)
     pub notes: Vec<String>,
     type_ids: HashMap<TypeId, usize>,
@@ -279,6 +316,7 @@ impl Ctx {
             cur_sub: 0,
             prepared: HashMap::new(),
             containers: Default::default(),
+            trackers: HashMap::new(),
             notes: Vec::new(),
             type_ids: type_id_table(),
             stats: Stats::default(),
@@ -417,7 +455,7 @@ impl Ctx {
         let mut arch: Vec<(Vec<usize>, u32)> = world
             .archetypes()
             .map(|a| {
-                let mut ts: Vec<usize> = a.component_types().map(|t| *tmap.get(&t).expect("harness: unknown TypeId")).collect();
+                let mut ts: Vec<usize> = a.component_types().map(|t| *tmap.get(&t).unwrap_or(&110)).collect();
                 ts.sort();
                 (ts, a.len())
             })
@@ -460,7 +498,7 @@ impl Ctx {
             .archetypes
             .iter()
             .map(|a| {
-                let ts: Vec<usize> = a.types.iter().map(|t| *self.type_ids.get(&t.0).expect("harness: unknown TypeId")).collect();
+                let ts: Vec<usize> = a.types.iter().map(|t| *self.type_ids.get(&t.0).unwrap_or(&110)).collect();
                 let ids: Vec<String> = a.ids.iter().map(|x| x.to_string()).collect();
                 let bw: Vec<String> = a.borrow.iter().map(|x| x.to_string()).collect();
                 format!("{}=[{}]=[{}]={}", show_nats(&ts), ids.join(","), bw.join(","), a.capacity)
@@ -492,7 +530,7 @@ impl Ctx {
                 let new = if self.notes.first().map_or(false, |n| n.starts_with("new=")) { self.notes.remove(0) } else { "new=[]".into() };
                 format!("{} d={} {}", res, show_comps(&drops), new)
             }
-            Op::Obs { .. } | Op::NewWorld { .. } | Op::Query { .. } => res,
+            Op::Obs { .. } | Op::NewWorld { .. } | Op::Query { .. } | Op::Track { .. } | Op::TObs { .. } => res,
             _ => {
                 if res == "panic" {
                     res
@@ -725,6 +763,66 @@ impl Ctx {
                 (op.show(), format!("es={}", show_entities(&es)))
             }
             Op::Obs { w } => self.obs(*w),
+            Op::TObs { w } => {
+                let (l, r) = self.obs(*w);
+                let strip = |s: &str| -> String {
+                    s.split(' ').filter(|t| !t.starts_with("arch=") && !t.starts_with("ag=")).collect::<Vec<_>>().join(" ")
+                };
+                (l.replacen("obs ", "tobs ", 1), strip(&r))
+            }
+            Op::Track { w, reads } => {
+                let mut tracker = self.trackers.remove(w).unwrap_or_else(hecs::ChangeTracker::<TK>::new);
+                let world = self.world(*w);
+                let mut out = ["-".to_string(), "-".to_string(), "-".to_string()];
+                {
+                    let mut changes = tracker.track(world);
+                    for &(k, partial) in reads {
+                        let srt = |v: &mut Vec<(Entity, String)>| {
+                            v.sort_by_key(|x| {
+                                let b = x.0.to_bits().get();
+                                (b & 0xffff_ffff, b >> 32)
+                            })
+                        };
+                        match k {
+                            0 => {
+                                let mut it = changes.added();
+                                if partial {
+                                    let n = it.by_ref().take(1).count();
+                                    out[0] = format!("~{}", n);
+                                } else {
+                                    let mut v: Vec<(Entity, String)> = it.map(|(e, x)| (e, x.0.to_string())).collect();
+                                    srt(&mut v);
+                                    out[0] = format!("[{}]", v.iter().map(|(e, s)| format!("{}={}", show_entity(*e), s)).collect::<Vec<_>>().join(";"));
+                                }
+                            }
+                            1 => {
+                                let mut it = changes.changed();
+                                if partial {
+                                    let n = it.by_ref().take(1).count();
+                                    out[1] = format!("~{}", n);
+                                } else {
+                                    let mut v: Vec<(Entity, String)> = it.map(|(e, old, new)| (e, format!("{}>{}", old.0, new.0))).collect();
+                                    srt(&mut v);
+                                    out[1] = format!("[{}]", v.iter().map(|(e, s)| format!("{}={}", show_entity(*e), s)).collect::<Vec<_>>().join(";"));
+                                }
+                            }
+                            _ => {
+                                let mut it = changes.removed();
+                                if partial {
+                                    let n = it.by_ref().take(1).count();
+                                    out[2] = format!("~{}", n);
+                                } else {
+                                    let mut v: Vec<(Entity, String)> = it.map(|(e, x)| (e, x.0.to_string())).collect();
+                                    srt(&mut v);
+                                    out[2] = format!("[{}]", v.iter().map(|(e, s)| format!("{}={}", show_entity(*e), s)).collect::<Vec<_>>().join(";"));
+                                }
+                            }
+                        }
+                    }
+                }
+                self.trackers.insert(*w, tracker);
+                (op.show(), format!("added={} changed={} removed={}", out[0], out[1], out[2]))
+            }
             Op::Cont(c) => {
                 let mut conts = std::mem::take(&mut self.containers);
                 let mut worlds = std::mem::take(&mut self.worlds);
@@ -791,6 +889,8 @@ pub enum Profile {
     Query,
     /// entity builders, command buffers and column batch builders driving a world (C11, C12, C13, C04)
     Containers,
+    /// mutations of a tracked component interleaved with `ChangeTracker::track` (C18)
+    Tracker,
 }
 
 impl Gen {
@@ -805,7 +905,9 @@ impl Gen {
     }
 
     fn bundle_for_types(&mut self, ts: &[usize]) -> Bundle {
-        ts.iter().map(|&t| (t, if t >= 7 { 0 } else { self.fresh() })).collect()
+        ts.iter()
+            .map(|&t| (t, if t == 10 { self.rng.below(4) as u64 } else if t >= 7 { 0 } else { self.fresh() }))
+            .collect()
     }
 
     fn random_types(&mut self, max: usize) -> Vec<usize> {
@@ -1131,6 +1233,47 @@ impl Gen {
         if self.profile == Profile::Containers && self.rng.chance(70) {
             return self.cont_op(ctx, w);
         }
+        if self.profile == Profile::Tracker {
+            let w = 0;
+            match self.rng.weighted(&[22, 30, 14, 12, 8, 6, 4, 4]) {
+                0 => {
+                    // track with a random subset/order of reads, some abandoned early
+                    let mut kinds: Vec<u8> = vec![0, 1, 2];
+                    self.rng.shuffle(&mut kinds);
+                    let n = self.rng.below(4);
+                    let reads = kinds.into_iter().take(n).map(|k| (k, self.rng.chance(25))).collect();
+                    return Op::Track { w, reads };
+                }
+                1 => {
+                    // insert / overwrite the tracked component (equal or different value)
+                    let (h, _) = self.pick_handle(ctx, w);
+                    let k = *self.rng.pick(&[28usize, 28, 28, 29, 30]).unwrap();
+                    let b = self.bundle_for_types(&bundle_types(k));
+                    return Op::Insert { w, h, k: Some(k), b };
+                }
+                2 => {
+                    let (h, _) = self.pick_handle(ctx, w);
+                    return Op::Remove { w, h, k: 28 };
+                }
+                3 => {
+                    let k = *self.rng.pick(&[28usize, 29, 30, 1, 0]).unwrap();
+                    let b = self.bundle_for_types(&bundle_types(k));
+                    return Op::Spawn { w, k: Some(k), b };
+                }
+                4 => return Op::Despawn { w, h: self.pick_handle(ctx, w).0 },
+                5 => {
+                    let h = self.spawn_at_target(ctx, w);
+                    let k = *self.rng.pick(&[28usize, 29, 0]).unwrap();
+                    let b = self.bundle_for_types(&bundle_types(k));
+                    return Op::SpawnAt { w, h, k: Some(k), b };
+                }
+                6 => return Op::ReserveEntity { w },
+                _ => {
+                    let (h, _) = self.pick_handle(ctx, w);
+                    return Op::Take { w, h, into: None };
+                }
+            }
+        }
         let weights: [usize; 16] = match self.profile {
             //            spawn at  batch cb  cbat ins rem exch desp take clr fl  res  re  res_n obs
             Profile::Mixed => [18, 4, 3, 3, 2, 14, 10, 6, 11, 4, 1, 2, 1, 3, 2, 0],
@@ -1139,6 +1282,7 @@ impl Gen {
             Profile::Batch => [8, 8, 4, 16, 12, 6, 5, 2, 10, 2, 1, 2, 1, 3, 3, 0],
             Profile::Query => [14, 2, 3, 3, 1, 10, 8, 4, 8, 2, 1, 2, 1, 2, 1, 60],
             Profile::Containers => [14, 3, 2, 2, 1, 10, 8, 4, 12, 3, 1, 2, 1, 4, 2, 0],
+            Profile::Tracker => [1, 0, 0, 0, 0, 0, 0, 0, 0, 0, 0, 0, 0, 0, 0, 0],
         };
         match self.rng.weighted(&weights) {
             0 => {
@@ -1296,7 +1440,8 @@ pub fn run_history(
             produced += 1;
             for w in (0..nworlds).rev() {
                 queue.push((usize::MAX, Op::DropWorld { w }));
-                queue.push((usize::MAX, Op::Obs { w }));
+                let tracked = gen.as_ref().map_or(false, |g| g.profile == Profile::Tracker);
+                queue.push((usize::MAX, if tracked { Op::TObs { w } } else { Op::Obs { w } }));
             }
             // every container still alive is dropped first (ledger)
             let mut bs: Vec<usize> = ctx.containers.builders.keys().copied().collect();
@@ -1327,6 +1472,7 @@ pub fn run_history(
             | Op::ReserveEntity { w } | Op::ReserveEntities { w, .. } | Op::Obs { w } | Op::DropWorld { w }
             | Op::Query { w, .. } => Some(*w),
             Op::Cont(c) => c.world(),
+            Op::Track { w, .. } | Op::TObs { w } => Some(*w),
         };
         if let Some(w) = w {
             if !ctx.has_world(w) {
@@ -1353,7 +1499,7 @@ pub fn run_history(
                 for n in ctx.notes.drain(..) {
                     out.trace.push(n);
                 }
-                if let (Some(w), false) = (w, matches!(op, Op::Obs { .. } | Op::DropWorld { .. } | Op::Query { .. })) {
+                if let (Some(w), false) = (w, matches!(op, Op::Obs { .. } | Op::DropWorld { .. } | Op::Query { .. } | Op::TObs { .. })) {
                     if let Some(s) = ctx.state_line(w) {
                         out.trace.push(s);
                     }
@@ -1372,12 +1518,13 @@ pub fn run_history(
                 break;
             }
         }
-        if !scripted && obs_every > 0 && !matches!(op, Op::Obs { .. } | Op::DropWorld { .. } | Op::NewWorld { .. } | Op::Query { .. }) {
+        if !scripted && obs_every > 0 && !matches!(op, Op::Obs { .. } | Op::TObs { .. } | Op::DropWorld { .. } | Op::NewWorld { .. } | Op::Query { .. }) {
             since_obs += 1;
             if since_obs >= obs_every {
                 since_obs = 0;
                 if let Some(w) = w {
-                    queue.push((usize::MAX, Op::Obs { w }));
+                    let tracked = gen.as_ref().map_or(false, |g| g.profile == Profile::Tracker);
+                    queue.push((usize::MAX, if tracked { Op::TObs { w } } else { Op::Obs { w } }));
                 }
             }
         }
